@@ -297,16 +297,18 @@ def gen_synthetic_case(rnd):
         else:
             rows.append({'var': rnd.randrange(n), 'var_name': rnd.choice(SYN_NAMES), 'step': rnd.randint(0, T),
                          'node': rnd.choice([None, 'N1', nm('M'), 'N2'])})
-    if rnd.random() < 0.04:
+    if rnd.random() < 0.1:
         rows.append({'var': n + rnd.randint(0, 1), 'var_name': rnd.choice(SYN_NAMES[:6]), 'step': rnd.randrange(T), 'node': rnd.choice([nm(node1), nm(node2)])})
     rnd.shuffle(rows)
     for r0 in rows:
         r0['bool'] = rnd.random() < 0.4
         r0['kind'] = rnd.choice(['d', 'i'])
     r = rnd.random()
-    acols = None if r < 0.05 else (n if r < 0.97 else n + rnd.choice([-1, 1]))
+    acols = None if r < 0.05 else (n if r < 0.9 else n + rnd.choice([-1, -1, -2, 1]))
+    if acols is not None:
+        acols = max(1, acols)
     m = rnd.randint(0, 3)
-    A = [[gen.q8(rnd, -2, 2) if rnd.random() < 0.4 else 0.0 for _ in range(acols or 0)] for _ in range(m)] if acols else None
+    A = [[gen.q8(rnd, -2, 2) if rnd.random() < 0.4 else 0.0 for _ in range(acols or 0)] for _ in range(m)] if acols is not None else None
     fake = {'c': [gen.q8(rnd, -2, 2) for _ in range(n)], 'l': [rnd.choice([0.0, 0.0, 0.0, -1.0, 0.5]) for _ in range(n)],
             'u': [rnd.choice([0.0, 1.0, 1.0, 2.5, 3.0, -1.0, 4.0, 0.125]) for _ in range(n)],
             'A': A, 'acols': acols, 'b': [gen.q8(rnd, -2, 2) for _ in range(m)] if A is not None else None,
